@@ -96,6 +96,38 @@ enum Extra {
     SymlinkDirThenWrite,
     SymlinkLedgerDivert,
     HardlinkUser,
+    /// `immutable/<unusual name>` (see `odd_name`): not valid UTF-8, hidden, blanks, backslash, other letter case,
+    /// longer than a tar header field, control character, multi-byte characters
+    ImmOddName(u8),
+}
+
+/// Unusual but legal file names. U+FFFD stands for one byte 0xFF: the tar writer emits the raw byte and the
+/// directory walker reads names lossily, so both sides of the comparison spell such a name the same way.
+fn odd_name(style: u8, honest: &str) -> String {
+    match style % 8 {
+        0 => "ledger-state-\u{FFFD}\u{FFFD}.bin".to_string(),
+        1 => ".hidden".to_string(),
+        2 => "with blank .txt".to_string(),
+        3 => "back\\slash".to_string(),
+        4 => honest.to_uppercase(),
+        5 => format!("{}.long", "n".repeat(130)),
+        6 => "new\nline".to_string(),
+        _ => "\u{e9}-\u{fc}-\u{540d}.dat".to_string(),
+    }
+}
+
+/// the bytes of an entry name inside a tar archive (U+FFFD -> 0xFF, see `odd_name`)
+fn raw_name(path: &str) -> Vec<u8> {
+    let mut out = Vec::with_capacity(path.len());
+    for ch in path.chars() {
+        if ch == '\u{FFFD}' {
+            out.push(0xFF);
+        } else {
+            let mut b = [0u8; 4];
+            out.extend_from_slice(ch.encode_utf8(&mut b).as_bytes());
+        }
+    }
+    out
 }
 
 #[derive(Clone, Debug, Serialize, Deserialize, PartialEq)]
@@ -114,6 +146,9 @@ enum Alter {
     EntryAdded,
     EntryRemoved(u16),
     PathRenamed(u16),
+    /// a listed path spelled differently (separator, letter case, blanks), its file served under that spelling:
+    /// another location on disk, hence another file, than the one the signer vouched for
+    PathRespelled(u16, u8),
     SigFlip(u16),
     SigRemoved,
     /// whole manifest re-signed with another key (true: after adding an evil file)
@@ -137,6 +172,8 @@ enum AncExtra {
     DotDot,
     SymlinkOut,
     NestedManifest,
+    /// `ledger/<unusual name>` (see `odd_name`)
+    OddName(u8),
 }
 
 #[derive(Clone, Debug, Serialize, Deserialize, PartialEq)]
@@ -307,7 +344,8 @@ fn write_tar(entries: &[TEntry]) -> (Vec<u8>, Vec<usize>) {
     let mut offsets = Vec::new();
     for e in entries {
         offsets.push(out.len());
-        let name = e.path.as_bytes();
+        let name_raw = raw_name(&e.path);
+        let name = name_raw.as_slice();
         let (et, link, data): (tar::EntryType, &[u8], &[u8]) = match &e.kind {
             EKind::File(d) => (tar::EntryType::Regular, &[], d.as_slice()),
             EKind::Symlink(t) => (tar::EntryType::Symlink, t.as_bytes(), &[]),
@@ -600,6 +638,11 @@ fn build_world(c: &Case, root: &Path, http_base: Option<&str>, rep: &mut Report)
                     ents.push(evil(&format!("immutable/{}.bak", trio(n)[0])));
                     rep.label("imm-extra:nested-immutable");
                 }
+                Extra::ImmOddName(style) => {
+                    ents.push(evil(&format!("immutable/{}", odd_name(*style, &trio(n)[0]))));
+                    rep.label("imm-extra:odd-name-in-immutable-dir");
+                    rep.label(format!("odd-name:{}", style % 8));
+                }
                 Extra::MarkerClean => {
                     ents.push(evil("clean"));
                     rep.label("imm-extra:marker");
@@ -773,6 +816,24 @@ fn build_world(c: &Case, root: &Path, http_base: Option<&str>, rep: &mut Report)
             files.insert(nk, f);
             rep.label("anc-alter:entries");
         }
+        Alter::PathRespelled(i, style) => {
+            let k = &keys[pick_index(*i, keys.len())];
+            let nk = match style % 4 {
+                0 => k.replace('/', "\\"),
+                1 => k.to_uppercase(),
+                2 => format!("{k} "),
+                _ => match k.rsplit_once('/') {
+                    Some((d, f)) => format!("{d}\\{f}"),
+                    None => format!("\\{k}"),
+                },
+            };
+            let v = data.remove(k).unwrap();
+            data.insert(nk.clone(), v);
+            let f = files.remove(k).unwrap();
+            files.insert(nk, f);
+            rep.label("anc-alter:entries");
+            rep.label("anc-alter:path-respelled");
+        }
         Alter::SigFlip(bit) => {
             let mut raw = hex::decode(&signature).unwrap();
             let b = pick_index(*bit, raw.len() * 8);
@@ -872,6 +933,10 @@ fn build_world(c: &Case, root: &Path, http_base: Option<&str>, rep: &mut Report)
                 anc_entries.push(TEntry { path: "ledger/link_anc".into(), kind: EKind::Symlink(format!("{world_s}/secret")) })
             }
             AncExtra::NestedManifest => anc_entries.push(evil("ledger/ancillary_manifest.json")),
+            AncExtra::OddName(style) => {
+                anc_entries.push(evil(&format!("ledger/{}", odd_name(*style, "00437"))));
+                rep.label("anc-extra:odd-name");
+            }
         }
     }
     if !c.anc.manifest_first {
@@ -1350,6 +1415,7 @@ fn order_sensitive(c: &Case) -> bool {
                 | Extra::TopDirFile
                 | Extra::NestedImm
                 | Extra::ImmOdd
+                | Extra::ImmOddName(_)
                 | Extra::MarkerClean
                 | Extra::MarkerMagic
                 | Extra::ManifestName
@@ -1761,6 +1827,7 @@ fn extra_kind_strategy() -> impl Strategy<Value = Extra> {
         1 => Just(Extra::TopDirFile),
         2 => Just(Extra::NestedImm),
         2 => Just(Extra::ImmOdd),
+        3 => any::<u8>().prop_map(Extra::ImmOddName),
         2 => Just(Extra::MarkerClean),
         2 => Just(Extra::MarkerMagic),
         1 => Just(Extra::MarkerDir),
@@ -1793,6 +1860,7 @@ fn alter_strategy() -> impl Strategy<Value = Alter> {
         2 => Just(Alter::EntryAdded),
         2 => any::<u16>().prop_map(Alter::EntryRemoved),
         1 => any::<u16>().prop_map(Alter::PathRenamed),
+        2 => (any::<u16>(), any::<u8>()).prop_map(|(i, s)| Alter::PathRespelled(i, s)),
         2 => any::<u16>().prop_map(Alter::SigFlip),
         2 => Just(Alter::SigRemoved),
         2 => any::<bool>().prop_map(Alter::SigOtherKey),
@@ -1815,6 +1883,7 @@ fn anc_extras_strategy() -> impl Strategy<Value = Vec<AncExtra>> {
             Just(AncExtra::DotDot),
             Just(AncExtra::SymlinkOut),
             Just(AncExtra::NestedManifest),
+            any::<u8>().prop_map(AncExtra::OddName),
         ],
         0..3,
     )
@@ -1969,7 +2038,11 @@ pub fn run(args: &Args) -> i32 {
         "imm-extra:beyond-beacon",
         "imm-extra:abs-or-dotdot",
         "imm-extra:link",
+        "imm-extra:odd-name-in-immutable-dir",
+        "odd-name:0",
         "anc-extra",
+        "anc-extra:odd-name",
+        "anc-alter:path-respelled",
         "anc-alter:content",
         "anc-alter:content-in-subdir",
         "anc-alter:entries",
